@@ -18,6 +18,13 @@ import vlib
 
 KEYS = {"custom": "verif.example/k", "custom2": "verif.example/k2",
         "wk": "topology.kubernetes.io/zone", "alias": "failure-domain.beta.kubernetes.io/zone"}
+# every deprecated alias -> stable key pair of the spec's AliasTable, rotated per chunk of cases
+ALIASES = [("topology.kubernetes.io/zone", "failure-domain.beta.kubernetes.io/zone"),
+           ("topology.kubernetes.io/region", "failure-domain.beta.kubernetes.io/region"),
+           ("kubernetes.io/arch", "beta.kubernetes.io/arch"),
+           ("kubernetes.io/os", "beta.kubernetes.io/os"),
+           ("node.kubernetes.io/instance-type", "beta.kubernetes.io/instance-type")]
+KEYSETS = [dict(KEYS, wk=w, alias=a) for w, a in ALIASES]
 BOUND_OPS = ("Gt", "Lt", "Gte", "Lte")
 
 
@@ -179,8 +186,8 @@ def explorer_cases(rnd, n_chains, n_multi, id0):
 
 
 # ---------------------------------------------------------------------------------------------- replay + validation
-def record(run, prefix, universe, cases, multi, shards):
-    inp = {"universe": universe, "keys": KEYS, "cases": cases, "multi": multi, "anyDraws": 8, "chunk": 400}
+def record(run, prefix, universe, cases, multi, shards, keysets=None):
+    inp = {"universe": universe, "keys": KEYS, "keysets": keysets or KEYSETS, "cases": cases, "multi": multi, "anyDraws": 8, "chunk": 400}
     ipath = os.path.join(run.work, prefix + "-cases.json")
     json.dump(inp, open(ipath, "w"))
     out = json.loads(run.drv("requirements-replay", ["-in", ipath, "-out", os.path.join(run.work, "traces"),
@@ -256,7 +263,8 @@ def replay_case(run, path):
         multi = [{"id": ev["id"], "A": ev["A"], "B": ev["B"]}]
     else:
         cases = [{"id": ev["id"], "kk": ev["kk"], "atoms": ev["atoms"]}]
-    files = record(run, "replay", cfgl["universe"], cases, multi, 1)
+    ks = dict(KEYS, custom=cfgl["custom"], custom2=cfgl["custom2"], wk=cfgl["wk"], alias=cfgl["alias"])
+    files = record(run, "replay", cfgl["universe"], cases, multi, 1, keysets=[ks])
     run.note_case(("replay", ev["id"]))
     validate(run, files, 1)
     run.samples = [{"case": (cases or multi)[0]}]
